@@ -29,9 +29,20 @@ type fwdExpect struct {
 	fn   string // function key
 	call string // expected effectful call term
 	ret  string // expected return term ("" = no result)
+	// alt: what the method may return instead of making the call — the call's own documented result with the
+	// arguments substituted (building the child facade directly instead of going through Router.Prefix/Resource)
+	alt string
 }
 
 var verbs = []struct{ name, method string }{{"Get", "GET"}, {"Post", "POST"}, {"Delete", "DELETE"}, {"Put", "PUT"}, {"Patch", "PATCH"}, {"Any", ""}}
+
+func fe(fn, call, ret string, alt ...string) fwdExpect {
+	e := fwdExpect{fn: fn, call: call, ret: ret}
+	if len(alt) > 0 {
+		e.alt = alt[0]
+	}
+	return e
+}
 
 func forwarderTable() []fwdExpect {
 	var t []fwdExpect
@@ -41,50 +52,90 @@ func forwarderTable() []fwdExpect {
 			list = fmt.Sprintf("list(%q)", v.method)
 		}
 		t = append(t,
-			fwdExpect{"mux.(*Router)." + v.name, "call<mux.(*Router).Handle>(recv, param:pattern, param:h, param:m, " + list + ")", "=call"},
-			fwdExpect{"mux.(*Prefix)." + v.name, "call<mux.(*Prefix).Handle>(recv, param:pattern, param:h, param:m, " + list + ")", "=call"},
-			fwdExpect{"mux.(*Resource)." + v.name, "call<mux.(*Resource).Handle>(recv, param:h, param:m, " + list + ")", "=call"},
+			fe("mux.(*Router)."+v.name, "call<mux.(*Router).Handle>(recv, param:pattern, param:h, param:m, "+list+")", "=call"),
+			fe("mux.(*Prefix)."+v.name, "call<mux.(*Prefix).Handle>(recv, param:pattern, param:h, param:m, "+list+")", "=call"),
+			fe("mux.(*Resource)."+v.name, "call<mux.(*Resource).Handle>(recv, param:h, param:m, "+list+")", "=call"),
 		)
 	}
 	ms := "@LIST(param:m, recv.ms)"
 	t = append(t,
-		fwdExpect{"mux.(*Prefix).Handle", "call<mux.(*Router).Handle>(recv.router, concat(recv.pattern, param:pattern), param:h, " + ms + ", param:methods)", "recv"},
-		fwdExpect{"mux.(*Resource).Handle", "call<mux.(*Router).Handle>(recv.router, recv.pattern, param:h, " + ms + ", param:methods)", "recv"},
-		fwdExpect{"mux.(*Prefix).Remove", "call<mux.(*Router).Remove>(recv.router, concat(recv.pattern, param:pattern), param:methods)", ""},
-		fwdExpect{"mux.(*Resource).Remove", "call<mux.(*Router).Remove>(recv.router, recv.pattern, param:methods)", ""},
-		fwdExpect{"mux.(*Resource).Clean", "call<mux.(*Router).Remove>(recv.router, recv.pattern, nil)", ""},
-		fwdExpect{"mux.(*Prefix).Clean", "call<tree.(*Tree).Clean>(recv.router.tree, recv.pattern)", ""},
-		fwdExpect{"mux.(*Router).Clean", "call<tree.(*Tree).Clean>(recv.tree, \"\")", ""},
-		fwdExpect{"mux.(*Router).Remove", "call<tree.(*Tree).Remove>(recv.tree, param:pattern, param:methods)", ""},
-		fwdExpect{"mux.(*Router).Routes", "call<tree.(*Tree).Routes>(recv.tree)", "=call"},
-		fwdExpect{"mux.(*Prefix).URL", "call<mux.(*Router).URL>(recv.router, param:strict, concat(recv.pattern, param:pattern), param:params)", "=call"},
-		fwdExpect{"mux.(*Resource).URL", "call<mux.(*Router).URL>(recv.router, param:strict, recv.pattern, param:params)", "=call"},
-		fwdExpect{"mux.(*Prefix).Prefix", "call<mux.(*Router).Prefix>(recv.router, concat(recv.pattern, param:prefix), " + ms + ")", "=call"},
-		fwdExpect{"mux.(*Prefix).Resource", "call<mux.(*Router).Resource>(recv.router, concat(recv.pattern, param:pattern), " + ms + ")", "=call"},
-		fwdExpect{"mux.(*Router).Prefix", "", "struct<Prefix>(router:recv, pattern:param:prefix, ms:call<slices.Clone>(param:m))"},
-		fwdExpect{"mux.(*Router).Resource", "", "struct<Resource>(router:recv, pattern:param:pattern, ms:call<slices.Clone>(param:m))"},
-		fwdExpect{"mux.(*Router).Handle", "call<tree.(*Tree).Add>(recv.tree, param:pattern, param:h, @LIST(param:m, recv.ms), param:methods)", "recv"},
+		fe("mux.(*Prefix).Handle", "call<mux.(*Router).Handle>(recv.router, concat(recv.pattern, param:pattern), param:h, "+ms+", param:methods)", "recv"),
+		fe("mux.(*Resource).Handle", "call<mux.(*Router).Handle>(recv.router, recv.pattern, param:h, "+ms+", param:methods)", "recv"),
+		fe("mux.(*Prefix).Remove", "call<mux.(*Router).Remove>(recv.router, concat(recv.pattern, param:pattern), param:methods)", ""),
+		fe("mux.(*Resource).Remove", "call<mux.(*Router).Remove>(recv.router, recv.pattern, param:methods)", ""),
+		fe("mux.(*Resource).Clean", "call<mux.(*Router).Remove>(recv.router, recv.pattern, nil)", ""),
+		fe("mux.(*Prefix).Clean", "call<tree.(*Tree).Clean>(recv.router.tree, recv.pattern)", ""),
+		fe("mux.(*Router).Clean", "call<tree.(*Tree).Clean>(recv.tree, \"\")", ""),
+		fe("mux.(*Router).Remove", "call<tree.(*Tree).Remove>(recv.tree, param:pattern, param:methods)", ""),
+		fe("mux.(*Router).Routes", "call<tree.(*Tree).Routes>(recv.tree)", "=call"),
+		fe("mux.(*Prefix).URL", "call<mux.(*Router).URL>(recv.router, param:strict, concat(recv.pattern, param:pattern), param:params)", "=call"),
+		fe("mux.(*Resource).URL", "call<mux.(*Router).URL>(recv.router, param:strict, recv.pattern, param:params)", "=call"),
+		fe("mux.(*Prefix).Prefix", "call<mux.(*Router).Prefix>(recv.router, concat(recv.pattern, param:prefix), "+ms+")", "=call",
+			"struct<Prefix>(router:recv.router, pattern:concat(recv.pattern, param:prefix), ms:"+ms+")"),
+		fe("mux.(*Prefix).Resource", "call<mux.(*Router).Resource>(recv.router, concat(recv.pattern, param:pattern), "+ms+")", "=call",
+			"struct<Resource>(router:recv.router, pattern:concat(recv.pattern, param:pattern), ms:"+ms+")"),
+		fe("mux.(*Router).Prefix", "", "struct<Prefix>(router:recv, pattern:param:prefix, ms:call<slices.Clone>(param:m))"),
+		fe("mux.(*Router).Resource", "", "struct<Resource>(router:recv, pattern:param:pattern, ms:call<slices.Clone>(param:m))"),
+		fe("mux.(*Router).Handle", "call<tree.(*Tree).Add>(recv.tree, param:pattern, param:h, @LIST(param:m, recv.ms), param:methods)", "recv"),
 	)
 	return t
 }
 
 // callString renders a call term; arguments that are middleware lists are rendered by their flattened operands
 // (so slices.Concat, a hand-written concatenation helper and nested appends onto a fresh slice read the same).
+// A call of a forwarding helper that is not itself a documented target (handleScoped(router, pattern, …)) is
+// replaced by the helper's own single effectful call with the helper's parameters bound to the arguments.
 func callString(c *Ctx, call *ssa.Call) string {
 	t := c.O.Of(call)
 	if t.Op != "call" {
 		return t.String()
 	}
-	var parts []string
 	args := an.CallArgs(&call.Call)
+	if g := an.StaticCallee(&call.Call); g != nil && !forwardTargets()[an.FuncKey(g)] && an.InModule(g) && len(g.Blocks) > 0 {
+		inner := c.effectfulCalls(g)
+		if len(inner) == 1 {
+			it := c.O.Of(inner[0])
+			if it.Op == "call" {
+				var argTerms []*an.Term
+				for _, a := range args {
+					argTerms = append(argTerms, c.O.Of(a))
+				}
+				st := an.Substitute(it, g, argTerms)
+				return renderCall(st, an.CallArgs(&inner[0].Call))
+			}
+		}
+	}
+	return renderCall(t, args)
+}
+
+func renderCall(t *an.Term, args []ssa.Value) string {
+	var parts []string
 	for i, a := range t.Args {
-		if i < len(args) && isMiddlewareSlice(args[i].Type()) && a.Op != "param" && !(a.Op == "const") {
+		if i < len(args) && isMiddlewareSlice(args[i].Type()) && !(a.Op == "param" && len(a.Args) == 0) && !(a.Op == "const") {
 			parts = append(parts, an.ListString(a))
 		} else {
 			parts = append(parts, a.String())
 		}
 	}
 	return "call<" + t.S + ">(" + strings.Join(parts, ", ") + ")"
+}
+
+var forwardTargetSet map[string]bool
+
+// forwardTargets: the callees named in the forwarder table (the documented desugaring targets).
+func forwardTargets() map[string]bool {
+	if forwardTargetSet == nil {
+		forwardTargetSet = map[string]bool{}
+		for _, e := range forwarderTable() {
+			if i := strings.Index(e.call, "call<"); i >= 0 {
+				rest := e.call[i+5:]
+				if j := strings.Index(rest, ">"); j >= 0 {
+					forwardTargetSet[rest[:j]] = true
+				}
+			}
+		}
+	}
+	return forwardTargetSet
 }
 
 // effectfulCalls: module calls of f other than trivial accessors that the originator inlines.
@@ -121,6 +172,23 @@ func ruleForwarders(c *Ctx, rule string) {
 		calls := c.effectfulCalls(f)
 		var callTerm string
 		if e.call != "" {
+			if len(calls) == 0 && e.alt != "" {
+				// the documented result built directly
+				good := true
+				got := ""
+				for _, r := range an.Returns(f) {
+					if len(r.Results) != 1 {
+						good = false
+						continue
+					}
+					got = structString(c.O.Of(r.Results[0]))
+					if got != e.alt {
+						good = false
+					}
+				}
+				c.R.Add(rule, e.fn, "forwards", c.P.Pos(f.Pos()), good, ifelse(good, "builds the documented result directly: "+got, "returns "+got+", the documented desugaring is "+e.call+" = "+e.alt))
+				continue
+			}
 			if len(calls) != 1 {
 				c.R.Add(rule, e.fn, "one-forwarded-call", c.P.Pos(f.Pos()), false, fmt.Sprintf("the facade method makes %d effectful module calls, expected exactly one", len(calls)))
 				continue
@@ -169,4 +237,24 @@ func ruleForwarders(c *Ctx, rule string) {
 			c.R.Add(rule, e.fn, "returns", c.pos(r), good, ifelse(good, got, "returns "+got+", expected "+want))
 		}
 	}
+}
+
+// structString renders a struct term; a field holding a middleware list is rendered by its flattened operands.
+func structString(t *an.Term) string {
+	if t.Op != "struct" {
+		return t.String()
+	}
+	var parts []string
+	for i, a := range t.Args {
+		name := ""
+		if i < len(t.Names) {
+			name = t.Names[i]
+		}
+		if name == "ms" && !(a.Op == "param" && len(a.Args) == 0) {
+			parts = append(parts, name+":"+an.ListString(a))
+		} else {
+			parts = append(parts, name+":"+a.String())
+		}
+	}
+	return "struct<" + t.S + ">(" + strings.Join(parts, ", ") + ")"
 }
